@@ -5,8 +5,11 @@
 (* of Envs with Clvm!Eval and printed as one JSON vector, which the harness  *)
 (* replays through the real stepping evaluator, the real CLVM-level          *)
 (* optimiser and the consensus evaluator (C04, C06, C12).                    *)
-EXTENDS Cldb, Json, TLC, FiniteSets
-CONSTANTS MaxLen, Profile, EnvSet
+EXTENDS ClvmStepper, Json, TLC, FiniteSets
+CONSTANTS MaxLen, Profile, EnvSet, ExtraCheck(_, _)
+\* ExtraCheck(term, env): a further model-level assertion per emitted vector; NoExtra for C04 / C06,
+\* MC_CldbGen!CldbCheck for C12 (kept out of this module: TLC's coverage instrumentation of Cldb runs out of memory)
+NoExtra(t, e) == TRUE
 
 \* tokens: <<"leaf", value>> | <<"q", value>> | <<"op", opcode bytes, arity>>
 PathLeaves == IF Profile = "stepper"
@@ -56,9 +59,7 @@ Emit == /\ need = 0 /\ ~emitted /\ emitted' = TRUE /\ UNCHANGED <<seq, need>>
               \* model-level counterexample ("D" line) where the deviation is known
               /\ (EnvSet = "clean" => Assert(Agrees(term, e, "int"), <<"stepper disagrees", term, e, r, st>>))
               /\ (~Agrees(term, e, "int") => PrintT(<<"D", ToJson([prog |-> term, env |-> e, res |-> r, step |-> st])>>))
-              \* C12 on the model: the debugger's final row is the big-step result; every row that pairs an operator
-              \* other than apply with a value is true of the semantics (apply rows are the known deviation)
-              /\ (Profile = "stepper" /\ EnvSet = "clean" => Assert(FinalOk(term, e) /\ OnlyApplyRowsFalse(term, e), <<"debugger model", term, e, Trace(term, e)>>))
+              /\ Assert(ExtraCheck(term, e), <<"extra check", term, e>>)
               /\ PrintT(<<"V", ToJson([prog |-> term, env |-> e, res |-> r, step |-> st])>>)
 Next == (\E t \in Toks : Add(t)) \/ Emit
 Spec == Init /\ [][Next]_vars
